@@ -319,32 +319,87 @@ fn c38_t_fields_step_progress() {
     assert!(pos <= n as u64, "position beyond the input");
 }
 
-/// `ValueReader::read_string` with a fully symbolic length on 0..=6 bytes: a
-/// length larger than the remaining input is an error (no panic, no
-/// allocation proportional to the bogus length); otherwise Ok/InvalidUtf8.
+/// `ValueReader::read_string`: (a) a symbolic length larger than the input is an
+/// error without any allocation; (b) for a concrete in-range length (UTF-8
+/// validation over a symbolic-*length* buffer exhausts CBMC's memory) the
+/// result is the input prefix or InvalidUtf8.
+macro_rules! read_string_too_long {
+    ($name:ident, $len:expr) => {
+        /// Declared string length (concrete; a symbolic one makes CBMC encode
+        /// UTF-8 validation over a symbolic-size buffer and run out of memory)
+        /// larger than the 3 symbolic input bytes: an error, no panic.
+        #[kani::proof]
+        #[kani::unwind(10)]
+        fn $name() {
+            let bytes: [u8; 3] = kani::any();
+            let mut r = ValueReader::from_buf(&bytes[..]);
+            match r.read_string($len) {
+                Ok(sv) => {
+                    std::mem::forget(sv);
+                    assert!(false, "string longer than the remaining input was accepted");
+                }
+                Err(e) => {
+                    kani::cover!(true, "rejected");
+                    assert!(matches!(e.kind(), ErrorKind::Eof | ErrorKind::IoError(_)));
+                    std::mem::forget(e);
+                }
+            }
+        }
+    };
+}
+read_string_too_long!(c38_q_value_reader_read_string_len_4, 4);
+read_string_too_long!(c38_q_value_reader_read_string_len_2p63, 1usize << 63);
+read_string_too_long!(c38_t_value_reader_read_string_len_2p40, 1usize << 40);
+read_string_too_long!(c38_t_value_reader_read_string_len_max, usize::MAX);
+
 #[kani::proof]
 #[kani::unwind(10)]
-fn c38_q_value_reader_read_string() {
-    let bytes: [u8; 6] = kani::any();
-    let n: usize = kani::any();
-    kani::assume(n <= 6);
-    let mut r = ValueReader::from_buf(&bytes[..n]);
-    let len: usize = kani::any();
-    let res = r.read_string(len);
-    kani::cover!(res.is_ok() && len == 2, "2-byte string read");
-    match res {
+fn c38_q_value_reader_read_string_in_range() {
+    let bytes: [u8; 3] = kani::any();
+    let mut r = ValueReader::from_buf(&bytes[..]);
+    let (b0, b1) = (bytes[0], bytes[1]);
+    // Two bytes are valid UTF-8 iff both are ASCII or they form one 2-byte sequence.
+    let valid = (b0 < 0x80 && b1 < 0x80) || (b0 >= 0xc2 && b0 <= 0xdf && b1 >= 0x80 && b1 <= 0xbf);
+    match r.read_string(2) {
         Ok(sv) => {
-            assert!(len <= n, "read past the end accepted");
-            assert!(sv.len() == len);
+            kani::cover!(b0 >= 0x80, "2-byte sequence read");
+            assert!(valid, "invalid UTF-8 accepted");
+            assert!(sv.len() == 2);
+            assert!(sv.as_bytes()[0] == b0 && sv.as_bytes()[1] == b1);
+            assert!(r.position() == 2);
             std::mem::forget(sv);
         }
         Err(e) => {
-            if len > n {
-                assert!(matches!(e.kind(), ErrorKind::Eof | ErrorKind::IoError(_)));
-            } else {
-                assert!(matches!(e.kind(), ErrorKind::InvalidUtf8));
-            }
+            assert!(matches!(e.kind(), ErrorKind::InvalidUtf8));
+            assert!(!valid, "valid UTF-8 rejected");
             std::mem::forget(e);
         }
     }
+}
+
+/// A bytes field whose declared length exceeds the remaining input (any length
+/// up to usize::MAX) is an error: no panic, and the reader must not allocate
+/// the bogus length (CBMC flags capacity overflow). Narrow variant of
+/// `c38_q_value_reader_read_bytes` that only looks at the bad-length region.
+#[kani::proof]
+#[kani::unwind(10)]
+fn c38_q_value_reader_length_beyond_input() {
+    let bytes: [u8; 4] = kani::any();
+    let n: usize = kani::any();
+    kani::assume(n <= 4);
+    let len: usize = kani::any();
+    kani::assume(len > n);
+    let mut r = ValueReader::from_buf(&bytes[..n]);
+    let failed = match r.read_bytes(len) {
+        Ok(b) => {
+            std::mem::forget(b);
+            false
+        }
+        Err(e) => {
+            std::mem::forget(e);
+            true
+        }
+    };
+    kani::cover!(len > (1 << 62), "huge length");
+    assert!(failed, "field longer than the remaining input was accepted");
 }
